@@ -72,6 +72,54 @@ func TestVerifC13(t *testing.T) {
 		}
 		r.Eval("za:" + cls)
 	})
+	// ids RELATED to the well-known default id "1234567812345678" (a fast path or a cached state for it must match
+	// the whole id, not a prefix, a length or a hash of a part): extensions, truncations, one byte changed, repeated,
+	// embedded; and the same for whatever id was used in the call before (the previous id with a suffix / shortened)
+	{
+		def := []byte("1234567812345678")
+		var rel [][]byte
+		for k := 1; k <= 20; k++ {
+			rel = append(rel, append(append([]byte{}, def...), rng.Bytes(k)...))
+		}
+		rel = append(rel, append(append([]byte{}, def...), def...), append(append([]byte{}, def...), 0), append([]byte{0}, def...), append(append([]byte{}, def[8:]...), def[:8]...))
+		for k := 0; k < 16; k++ {
+			rel = append(rel, def[:k])
+			c := append([]byte{}, def...)
+			c[k] ^= 1 << uint(k%8)
+			rel = append(rel, c)
+		}
+		rel = append(rel, bytes.ToUpper(def), append(append(rng.Bytes(5), def...), rng.Bytes(3)...), def)
+		prev := def
+		for i, id := range rel {
+			for _, cand := range [][]byte{id, append(append([]byte{}, prev...), byte(i)), prev[:len(prev)/2]} {
+				want, _ := ref.SM2ZA(cand, px0, py0)
+				var got []byte
+				var err error
+				p, msg, _, _ := hk.Try(func() { got, err = ZA(cand, px0, py0) })
+				if p || err != nil || !bytes.Equal(got, want) {
+					r.Violation("za-wrong:id-related-to-the-default-or-previous-id", hk.D{"id": hk.Hex(cand), "id_text": string(cand), "got": hexOrNil(got), "want": hk.Hex(want), "err": errStr(err), "panic": msg})
+				}
+				prev = cand
+				if len(prev) == 0 {
+					prev = def
+				}
+			}
+			r.Eval("za:id-related-to-default")
+		}
+		// and through the wrappers: a signature made under the default id must NOT verify under an extension of it
+		msgR := rng.Bytes(40)
+		rr, ss, serr := Sign(def, px0, py0, newScript(idbuf[:256]), ref.B32(d0), msgR)
+		if serr == nil {
+			for _, other := range [][]byte{append(append([]byte{}, def...), 'x'), def[:15], append(append([]byte{}, def...), def...)} {
+				if ok, _ := Verify(other, px0, py0, msgR, rr, ss); ok {
+					r.Violation("verify-accepts-signature-under-another-id", hk.D{"signed_under": string(def), "verified_under": string(other)})
+				}
+			}
+			if ok, _ := Verify(def, px0, py0, msgR, rr, ss); !ok {
+				r.Violation("verify-rejects-own-signature:default-id", hk.D{})
+			}
+		}
+	}
 	// ids of 8192 bytes or more must be refused WHATEVER their content and length: lengths around every
 	// multiple of 8192 (where a 16-bit ENTL wraps onto a legal value) with contents that start with the
 	// default id, repeat it, are zero, or random
